@@ -75,6 +75,13 @@ def run(ctx):
 
 def check_cfg(ctx, fx, cfg):
     check_join_handle_is_inert(ctx, fx, cfg, "R17.5")
+    # R17.7 (shared with C07) "yields the actor value in its final state": the value an owning handle hands back is the one the
+    # configured restart strategy left in the loop — the builder's spawn_owning terminals run the loop with the builder's own
+    # strategy, as their spawn twins do (`Environment::<A>::…` silently means RestartOnly: after a restart the joined value of a
+    # recreate-from-default actor would still carry the state of the previous incarnation)
+    if cfg != "bare":
+        from props import c07 as _c07
+        core.shared_from(ctx, _c07.check_cfg, fx, cfg, "R17.7", ("R07.4",), r"^terminal:.*spawn_owning", 2, "builder spawn_owning terminals")
     # R17.1
     res = run_loops(ctx, fx, "R17.1", {"L11a"})
     for f, kind, b, n in res:
